@@ -313,6 +313,30 @@ fn renumber(node: &mut NodeSpec, perm: &[usize]) {
     }
 }
 
+/// Two branches of a tree may name the same PDF: in every tree with three or more leaves the
+/// leaf that names PDF 2 is made to name PDF 1 (PDF 2 stays in the table, unused; the leaves
+/// with larger numbers keep theirs). No random choice involved.
+fn share_leaves(m: &mut ModelSpec) {
+    fn walk(n: &mut NodeSpec) {
+        match n {
+            NodeSpec::Leaf(id) => {
+                if *id == 2 {
+                    *id = 1;
+                }
+            }
+            NodeSpec::Node { no, yes, .. } => {
+                walk(no);
+                walk(yes);
+            }
+        }
+    }
+    for t in m.trees.iter_mut() {
+        if t.nleaves >= 3 {
+            walk(&mut t.root);
+        }
+    }
+}
+
 #[allow(clippy::too_many_arguments)]
 fn gen_model(
     rng: &mut Rng,
@@ -433,7 +457,8 @@ pub fn generate(opts: &VoiceOpts, pool: &QuestionPool, rng: &mut Rng) -> VoiceSp
     let ln_gain = opts.ln_gain;
     let transparent = opts.transparent;
     let shape = opts.shape;
-    let mcp_model = gen_model(
+    let shared = opts.opt_order % 3 == 2;
+    let mut mcp_model = gen_model(
         rng,
         pool,
         "mgc_s",
@@ -503,6 +528,9 @@ pub fn generate(opts: &VoiceOpts, pool: &QuestionPool, rng: &mut Rng) -> VoiceSp
             mean
         },
     );
+    if shared {
+        share_leaves(&mut mcp_model);
+    }
     // (an all-pass constant of 0 may be left out; keys the engine does not know may be present)
     let mut mcp_opts = if opts.alpha == 0.0 && opts.opt_order % 2 == 0 { vec![] } else { vec![format!("ALPHA={}", opts.alpha)] };
     if opts.opt_order == 3 {
@@ -553,7 +581,7 @@ pub fn generate(opts: &VoiceOpts, pool: &QuestionPool, rng: &mut Rng) -> VoiceSp
     let wins = window_set(opts.win_lf0);
     let nwin = wins.len();
     let lv = opts.lf0_vlen.max(1);
-    let lf0_model = gen_model(rng, pool, "lf0_s", &states, lv * nwin * 2 + 1, opts.max_depth, false, extra_root, |rng, _| {
+    let mut lf0_model = gen_model(rng, pool, "lf0_s", &states, lv * nwin * 2 + 1, opts.max_depth, false, extra_root, |rng, _| {
         let mut v = vec![0f32; lv * nwin * 2 + 1];
         let kind = rng.below(10);
         if kind == 0 {
@@ -583,6 +611,9 @@ pub fn generate(opts: &VoiceOpts, pool: &QuestionPool, rng: &mut Rng) -> VoiceSp
         }
         v
     });
+    if shared {
+        share_leaves(&mut lf0_model);
+    }
     let gv_lf0 = if opts.gv_lf0 {
         Some(gen_model(rng, pool, "gv_lf0_", &[2], 2, opts.max_depth.min(2), false, extra_root, |rng, _| {
             vec![f32r(rng, 0.005, 0.08), f32r(rng, 1e-5, 1e-3)]
